@@ -169,7 +169,7 @@ func c35Conc(capacity uint, prefill []string, progs [][]string, mode string) str
 	if gate {
 		bar.n++ // the harness goroutine takes part
 	}
-	var called atomic.Int32
+	var called, returned atomic.Int32
 	var wg sync.WaitGroup
 	for t := 0; t < T; t++ {
 		wg.Add(1)
@@ -190,6 +190,7 @@ func c35Conc(capacity uint, prefill []string, progs [][]string, mode string) str
 				called.Add(1)
 				r := c35Do(c, op)
 				recs[t] = append(recs[t], c35Rec{t, k, clock.Add(1), op, r})
+				returned.Add(1)
 			}
 		}(t)
 	}
@@ -210,6 +211,9 @@ func c35Conc(capacity uint, prefill []string, progs [][]string, mode string) str
 				runtime.Gosched()
 			}
 			c.Unlock()
+			for returned.Load() < want { // the round must drain before the gate closes again
+				runtime.Gosched()
+			}
 		}
 	}
 	wg.Wait()
